@@ -1637,12 +1637,48 @@ fn coverage(file: &str, item: &str) -> Option<&'static str> {
     })
 }
 
+/// the coverage audit of C18 against the eleven classes of missed inputs (also DESIGN §4 C18 "coverage audit")
+fn audit() -> serde_json::Value {
+    json!([
+      {"class": 1, "topic": "entry paths / variants never driven",
+       "covered": "every public item of anti_entropy.rs and the anti-entropy fns of multi_node.rs is SCANNED FROM THE SOURCE the binary was built against and mapped to the op that drives it (113 items; an unaccounted item is C18:coverage:<file>:<item>-not-driven, a failed scan C18:coverage:source-scan-failed); three paths of a sync: simulator shortcut (SYNC, SYNC3 = run_full_anti_entropy over three nodes, HEAL = heal_partition × auto_anti_entropy), message protocol as pulls (PULL, bucket and full-state request) and as a STATE MACHINE between three managers (MNEW / MDIG / MPROC / MREQ / MHANDLE / MAPPLY / MWRITE / MDUE / MHEAL / MNEED)",
+       "open": "AntiEntropyMessage (an envelope enum nothing constructs or matches); pending_requests / pending_responses have no producer (checked to stay empty)"},
+      {"class": 2, "topic": "input alphabet",
+       "covered": "values: plain SET / DEL values from real replicas, structured random values of all six CRDT kinds, values reachable by ops + delta delivery, and EXTREMES of every field (u64::MAX / 2^63 / 2^32 stamps, counts, sequences, expiry; rf 0 / 255; empty, binary (0x00, 0xff, all 256 bytes), 4 KiB payloads; empty / 100-byte / multi-byte / prefix-of-each-other strings as set elements, OR-set elements and hash fields; Some(empty map) vs None; Some(empty bytes) vs None); keys: empty, 120 bytes, multi-byte, prefixes of each other; EVERY value's byte stream is recomputed by the model and its SipHash compared (conflicts=0), raw SIP lines of every length 0..40 and random longer ones",
+       "open": "non-UTF-8 keys / element names cannot exist (Rust String); Lamport times stay below u64::MAX (the clock's own overflow is C08's subject)"},
+      {"class": 3, "topic": "comparisons at equality",
+       "covered": "max_keys_per_sync below / at / above the responder's population on all three paths (counted: population<limit, =limit, >limit); sync_interval_ms: now = last + interval − 1 / + 0 / + 1 for a peer that is NOT divergent (corpus_bookkeeping, intervals 0 / 1 / 10 / 1000) and from the manager's real table in the sessions; MAX_MERKLE_TREE_DEPTH: ALLOC 19 / 20 / 21 / 22, KeyDigest::bucket at 19 / 20 / 21 / 22 / 64 / usize::MAX vs the digest size; bucket sort `len > 1` (buckets of exactly 1, 2, 3 keys); count == 0 of combine / of the size-mismatch branch (depth mismatch sessions)",
+       "open": ""},
+      {"class": 4, "topic": "configuration",
+       "covered": "all four AntiEntropyConfig fields are generated: merkle_tree_depth 0-3, 8, 15-18 (thorough 17, 20, 21) and the allocation probes up to usize::MAX, DIFFERENT depths on the two sides; max_keys_per_sync 0, 1, 2, 5, 16, population-derived, 1000, usize::MAX; sync_interval_ms 0, 1, 10, 100, 1000, u64::MAX; auto_sync_on_heal both",
+       "open": "depths 30..58 are never configured (code without the depth bound would really allocate 24 * 2^depth bytes)"},
+      {"class": 5, "topic": "capacity thresholds", "covered": "the per-round key limit is the only internal limit: crossed on every path; 2^18 buckets in the corpus", "open": ""},
+      {"class": 6, "topic": "fault kinds",
+       "covered": "panics: digest allocation at extreme depths (fixed: c51a674), u64 underflow of should_sync / peers_needing_sync when the clock went backwards (MDUE / MNEED: `underflow`, modelled as AE.Due.underflow — a wrap-around to `due` in a build without overflow checks); any other panic inside a generated case is caught per scenario and reported as C18:panic:<location>",
+       "open": "no I/O in scope"},
+      {"class": 7, "topic": "history shapes",
+       "covered": "1-5 rounds of each path; a state that changes between digest and transfer (local writes in every gap of a flow); answers applied late, twice, by a third node, a request answered a second time later; two or three interleaved pulls with different peers; three-node full passes; equal states / mutated copies / key-set differences; final clean-up to convergence",
+       "open": ""},
+      {"class": 8, "topic": "node-global state", "covered": "the manager's bookkeeping (generation, peer_digests, divergent_peers, last_sync_time) is part of the model state and of every session answer", "open": "the Lamport clock / executor write-through of apply_remote_deltas (C08 / C06)"},
+      {"class": 9, "topic": "observations",
+       "covered": "digest: root, count, max timestamp, bucket count, every non-empty bucket node; key hash and value hash of every entry; divergent buckets; the ANSWER ORDER of every response; request (from, to, buckets, digest root, generation), response (from, keys, digest root), divergent_peers after every step, should_sync / peers_needing_sync, generation; full state dumps after every merge",
+       "open": "peer_digests is observed as 'contains the peer' only (its digest equals the processed message by construction)"},
+      {"class": 10, "topic": "finding signatures",
+       "covered": "the three starvation findings are keyed by path AND condition (limit.max(1) < population, a quiescent exchange, deliverable differences left); absorption audit: a short answer (take(limit − 1)) is C18:sync:*:response-incomplete / quiescent-not-converged, not a starvation finding",
+       "open": ""},
+      {"class": 11, "topic": "harness fragility",
+       "covered": "corpus cases that need a particular HashMap iteration order are retried 200 times and a failure to construct one is C18:harness:corpus-case-not-constructed (was: silently skipped); a panic inside a scenario is a reported case (was: a dead harness); the source scan reads the tree named by harness/Cargo.toml; unchanged states are not re-sent (S-line cache, invalidated by every state-changing op)",
+       "open": ""}
+    ])
+}
+
 pub fn run(a: &Args) {
     let mut out = Out::new(&a.out);
     let mut rng = Rng::new(a.seed);
     let mut cr = Rng::new(18);
     corpus(&mut out, &mut cr, a.tier == "thorough");
     crate::srcscan::report(&mut out, "C18", "api_coverage(scanned from the source of the dependency)", &["src/replication/anti_entropy.rs", "src/simulator/multi_node.rs"], &coverage);
+    out.extra.insert("audit".into(), audit());
     for i in 0..a.n {
         // a panic of the real code inside a scenario is a reported case, not a dead harness
         let prev = std::panic::take_hook();
